@@ -386,6 +386,18 @@ class Fn:
                 if raw:
                     return ("proj", inner_base, inner_proj + [self._proj_str(p) for p in raw])
                 return base
+        # ... also when the tuple is built in several arms (`let (a, b) = match x { A => (1, p), B => (2, q) }`): the alternatives, component-wise
+        if raw and base[0] == "multi" and raw[0].get("k") == "field" and isinstance(raw[0].get("i"), int) and depth > 0 and base[2] \
+                and all(x[0] == "aggr" and x[1].get("agg") == "tuple" and raw[0]["i"] < len(x[1].get("ops", [])) for x in base[2]):
+            i_ = raw[0]["i"]
+            rest = raw[1:]
+            alts = []
+            for x in base[2]:
+                comp = self.origin(x[1]["ops"][i_], depth - 1, seen)
+                if rest:
+                    comp = ("proj", comp, [self._proj_str(p) for p in rest]) if comp[0] != "proj" else ("proj", comp[1], list(comp[2]) + [self._proj_str(p) for p in rest])
+                alts.append(comp)
+            return ("multi", "%s.%d" % (base[1], i_), alts)
         proj = [self._proj_str(p) for p in raw]
         if proj:
             return ("proj", base, proj)
